@@ -90,6 +90,29 @@ def run(ctx):
         wt = [rng.choice([-3, -2, -1, 1, 2, 3]) for _ in range(nobj)]
         cid += 1
         allc.append(_eff_case(cid, is_pareto_efficient, pts, wt))
+    # (C) large clouds (beyond any block size an implementation may use) whose first objective takes few levels, so that
+    # big groups tied in one objective are resolved only by the others; systematic sizes around powers of two
+    sizes = [127, 128, 129, 130, 200, 255, 256, 257, 300, 400] + ([513, 640, 1025] if thorough else [])
+    for rep in range(3 if thorough else 2):
+        for k, npt in enumerate(sizes):
+            nobj = 2 + (k + rep) % 2
+            tiedcol = 0 if (k + rep) % 3 else rng.randrange(nobj)
+            g = [2, 3, 5, 8][(k + rep) % 4]
+            wt = [rng.choice([-2, -1, 1, 2]) for _ in range(nobj)]
+            sg = [1 if w > 0 else -1 for w in wt]
+            if rep == 0:
+                # unstructured: the tied objective takes g levels, the others 40
+                val = [[rng.randrange(g) if j == tiedcol else rng.randrange(40) for j in range(nobj)] for _ in range(npt)]
+            else:
+                # a trade-off between the tied objective and the rest: no level covers another, so membership of the front
+                # is decided inside each group of points tied in that objective, wherever the group lies in the input
+                val = []
+                for _ in range(npt):
+                    L = rng.randrange(g)
+                    val.append([L if j == tiedcol else (g - 1 - L) * 50 + rng.randrange(40) for j in range(nobj)])
+            pts = [[v[j] * sg[j] for j in range(nobj)] for v in val]
+            cid += 1
+            allc.append(_eff_case(cid, is_pareto_efficient, pts, wt))
     # dominance: exhaustive small + random
     vals = [-1, 0, 1]
     for o1 in itertools.product(vals, repeat=2):
